@@ -3793,6 +3793,9 @@ class CaseNode(Node):
                     original_backreference[None] = None
                     empty_backreference[None] = None
 
+        if not mergeable_ds:
+            raise IllegalASTStateError("Case statement must have at least one clause that matches input", self)
+
         # Create the merged acceptor
         decider_dfa, corresponding_finish_states = self._merge(mergeable_ds, current_error_handlers[ErrorReasons.NO_MATCH], priorities)
 
